@@ -100,8 +100,14 @@ Limits of the approach (stated)
   FileNameLength, termination) is checked, the Windows ABI field width is not.
 * Path separator is "/" (the emitter joins with os.path.join of this platform); Windows path semantics (case
   insensitivity, 8.3 names, "\\\\?\\" prefixes) are not exercised.  Watch paths are str (bytes roots: C19).
-* inode numbers: macOS/APFS does not reuse an inode number while the stream runs; the driver keeps a descriptor open on
-  every removed entry so that ext4 cannot reuse the number inside a scenario.
+* inode numbers seen by the FSEvents layer are VIRTUAL (native events carry them, the emitter's os.stat() goes through
+  a proxy bound to the name `os` of watchdog.observers.fsevents that maps the real st_ino to the scenario's number):
+  whether a new entry RE-USES the number a removed entry has freed is an environment choice of the scenario (`reuse`),
+  independent of what the scratch file system does (the driver keeps removed entries open so that the real numbers
+  stay distinct).  The re-use family: every [create x] [write x] delete x, create y life cycle (3-4 operations), all
+  <= 3-operation histories with a delete before a create in the thorough tier, random histories; with the verbose
+  variant the delete arrives as the coalesced ItemCreated|[ItemModified|]ItemRemoved record that touches _fs_view.
+  Coalescing is per ITEM: a record of the entry that re-uses a number is never merged into a record of the old one.
 * The fake kernel32 / _watchdog_fsevents only implement what queue_events reaches; thread start-up, the CFRunLoop, the
   overlapped I/O of the real libraries are outside (C04-C07 cover the generic emitter life cycle).
 * No replace-by-rename, links or permission faults in the histories; histories are bounded as stated in the evidence.
@@ -287,6 +293,9 @@ def load_layers():
     for mod in (L.events, L.winapi, L.rdc, L.fsevents, L.inotify_c):
         if not os.path.realpath(mod.__file__).startswith(os.path.realpath(src)):
             raise RuntimeError(f"{mod.__name__} imported from {mod.__file__}, expected {src}")
+    if L.fsevents.os is not os:
+        raise RuntimeError("watchdog.observers.fsevents no longer binds the name `os`")
+    L.fsevents.os = _OsProxy()          # virtual inode numbers for the emitter's os.stat()
     L.kernel32 = L.winapi.kernel32
     L.fake_fse = fake_fse
     if not isinstance(L.kernel32, FakeKernel32):
@@ -473,6 +482,36 @@ def pacing_ok(tree, ops):
     return True
 
 
+_VINO = {}      # real st_ino -> virtual inode number of the scenario being run in this process
+
+
+class _StatResult:
+    """os.stat_result with st_ino replaced by the scenario's virtual inode number."""
+
+    def __init__(self, st):
+        self._st = st
+        self.st_ino = _VINO.get(st.st_ino, st.st_ino)
+
+    def __getattr__(self, name):
+        return getattr(self._st, name)
+
+
+class _OsProxy:
+    """Stands for the name `os` inside watchdog.observers.fsevents: everything is the real os, except that stat() /
+    lstat() report virtual inode numbers (the OS seam of the FSEvents layer: which inode a path has)."""
+
+    def __getattr__(self, name):
+        return getattr(os, name)
+
+    @staticmethod
+    def stat(path, *a, **k):
+        return _StatResult(os.stat(path, *a, **k))
+
+    @staticmethod
+    def lstat(path, *a, **k):
+        return _StatResult(os.lstat(path, *a, **k))
+
+
 class Scratch:
     """A real scratch directory: <base>/w is the watched root, <base>/o the outside area."""
 
@@ -485,7 +524,38 @@ class Scratch:
         self.fds = []
         self.n_out = 0
 
+    # Inode numbers the FSEvents side sees are VIRTUAL: the native events carry them and the emitter's os.stat() (a proxy
+    # installed on the fsevents module's `os` name, see load_layers) reports them for the real files.  That makes inode
+    # RE-USE an environment choice: with reuse=True a newly created entry gets the number a removed entry has freed.
+    def ino(self, fp):
+        real = os.lstat(fp).st_ino
+        if real not in _VINO:
+            self.next_v += 1
+            _VINO[real] = self.next_v
+        return _VINO[real]
+
+    def alloc(self, fp, reuse):
+        real = os.lstat(fp).st_ino
+        if reuse and self.free:
+            _VINO[real] = self.free.pop()
+        else:
+            self.next_v += 1
+            _VINO[real] = self.next_v
+        self.gen[_VINO[real]] = self.gen.get(_VINO[real], 0) + 1
+        return _VINO[real]
+
+    def uid(self, v):
+        """Identity of the ITEM that currently owns inode number v (a re-used number names a different item)."""
+        return None if v is None else (v, self.gen.get(v, 0))
+
+    def release(self, v):
+        self.free.append(v)
+
     def reset(self, tree):
+        _VINO.clear()
+        self.gen = {}
+        self.free = []
+        self.next_v = 1000
         self.close_fds()
         for d in (self.root, self.out):
             shutil.rmtree(d, ignore_errors=True)
@@ -566,7 +636,7 @@ def post_order(fp):
     return out
 
 
-def do_op(S, op, verbose=False):
+def do_op(S, op, verbose=False, reuse=False):
     """Execute `op` on the real scratch tree.  Returns (win_events, fse_events, info):
     win_events: [(action, relative path tuple)] as a recursive ReadDirectoryChangesW watch reports them,
     fse_events: [(abs path, inode, flags)], info: fields of the trace's op line."""
@@ -608,7 +678,7 @@ def do_op(S, op, verbose=False):
                 pass
         win.append((A_ADDED, p))
         parent_mod(p)
-        fse.append((fp, os.lstat(fp).st_ino, kItemCreated | kflag(k)))
+        fse.append((fp, S.alloc(fp, reuse), kItemCreated | kflag(k)))
         info.update(src=ids(p), k=k)
     elif kind == "write":
         p = op[1]
@@ -618,7 +688,7 @@ def do_op(S, op, verbose=False):
         win.append((A_MODIFIED, p))
         if verbose:
             win.append((A_MODIFIED, p))
-        fse.append((fp, os.lstat(fp).st_ino, kItemModified | kItemIsFile | (kItemInodeMetaMod if verbose else 0)))
+        fse.append((fp, S.ino(fp), kItemModified | kItemIsFile | (kItemInodeMetaMod if verbose else 0)))
         info.update(src=ids(p))
     elif kind == "delete":
         p = op[1]
@@ -626,7 +696,8 @@ def do_op(S, op, verbose=False):
         k = "d" if os.path.isdir(fp) else "f"
         victims = (post_order(fp) if k == "d" else []) + [(fp, k)]
         for vp, vk in victims:
-            ino = os.lstat(vp).st_ino
+            ino = S.ino(vp)
+            S.release(ino)
             S.hold(vp)
             if vk == "d":
                 os.rmdir(vp)
@@ -640,7 +711,7 @@ def do_op(S, op, verbose=False):
         p, q = op[1], op[2]
         fp, fq = S.path(p), S.path(q)
         k = "d" if os.path.isdir(fp) else "f"
-        ino = os.lstat(fp).st_ino
+        ino = S.ino(fp)
         assert not os.path.lexists(fq)
         os.rename(fp, fq)
         if p[:-1] == q[:-1]:
@@ -659,7 +730,7 @@ def do_op(S, op, verbose=False):
         p = op[1]
         fp = S.path(p)
         k = "d" if os.path.isdir(fp) else "f"
-        ino = os.lstat(fp).st_ino
+        ino = S.ino(fp)
         S.n_out += 1
         os.rename(fp, os.path.join(S.out, f"out{S.n_out}"))
         win.append((A_REMOVED, p))
@@ -685,12 +756,13 @@ def do_op(S, op, verbose=False):
         os.rename(src, fq)
         win.append((A_ADDED, q))
         parent_mod(q)
-        fse.append((fq, os.lstat(fq).st_ino, kItemRenamed | kflag(k)))
+        fse.append((fq, S.alloc(fq, reuse), kItemRenamed | kflag(k)))
         info.update(dst=ids(q), k=k, desc=desc_of(fq) if k == "d" else [])
     elif kind == "rmroot":
-        ino_root = os.lstat(S.root).st_ino
+        ino_root = S.ino(S.root)
         for vp, vk in post_order(S.root):
-            ino = os.lstat(vp).st_ino
+            ino = S.ino(vp)
+            S.release(ino)
             S.hold(vp)
             if vk == "d":
                 os.rmdir(vp)
@@ -706,6 +778,9 @@ def do_op(S, op, verbose=False):
         info.update(src=[], k="d")
     else:
         raise ValueError(op)
+    # 4th field (simulator bookkeeping, never shown to the emitter): the item's identity - FSEvents coalesces the
+    # records of one ITEM at one path, and an item that re-uses a freed inode number is another item
+    fse = [(p_, i_, fl, S.uid(i_)) for p_, i_, fl in fse]
     return win, fse, info
 
 
@@ -740,8 +815,8 @@ def fse_coalescings(batch):
     partitioned into consecutive blocks in every way; a block becomes one event with the flags OR-ed.
     Index 0 = everything merged, last index = nothing merged."""
     runs = []
-    for i, (path, ino, _fl) in enumerate(batch):
-        if runs and ino is not None and batch[runs[-1][0]][0] == path and batch[runs[-1][0]][1] == ino:
+    for i, ev in enumerate(batch):
+        if runs and ev[3] is not None and batch[runs[-1][0]][0] == ev[0] and batch[runs[-1][0]][3] == ev[3]:
             runs[-1].append(i)
         else:
             runs.append([i])
@@ -760,7 +835,7 @@ def fse_coalescings(batch):
                     flags[blk[0]] |= flags[j]
                     drop.add(j)
                 pos += ln
-        out.append([(batch[i][0], batch[i][1], flags[i]) for i in range(len(batch)) if i not in drop])
+        out.append([(batch[i][0], batch[i][1], flags[i], batch[i][3]) for i in range(len(batch)) if i not in drop])
     return out
 
 
@@ -870,7 +945,7 @@ def run_scenario(L, S, sc, probe=False):
         paced = gn == 1
         for op in ops[pos: pos + gn]:
             op = tuple(tuple(x) if isinstance(x, list) else x for x in op)
-            win, fse, info = do_op(S, op, sc.get("verbose", False))
+            win, fse, info = do_op(S, op, sc.get("verbose", False), sc.get("reuse", False))
             info["e"] = "op"
             info["paced"] = paced
             info["tree"] = tree_json(S.listing())
@@ -891,13 +966,13 @@ def run_scenario(L, S, sc, probe=False):
                 if len(merged) < len(batch):
                     flags.add("coalesced")
                 if at < len(stream) and batch[-1][2] & kItemRenamed and stream[at][2] & kItemRenamed \
-                        and stream[at][1] == batch[-1][1] and stream[at][0] != batch[-1][0]:
+                        and stream[at][3] == batch[-1][3] and stream[at][0] != batch[-1][0]:
                     flags.add("splitpair")
                 if sc.get("verbose"):
                     # sticky ItemCreated: FSEvents keeps reporting the flag on later events of an item it has announced
                     # as created (the "spurious is_created" the emitter's _fs_view exists for)
-                    merged = [(p_, i_, fl | (kItemCreated if (i_, p_) in sticky else 0)) for p_, i_, fl in merged]
-                    sticky.update((i_, p_) for p_, i_, fl in merged if fl & kItemCreated)
+                    merged = [(p_, i_, fl | (kItemCreated if (u_, p_) in sticky else 0), u_) for p_, i_, fl, u_ in merged]
+                    sticky.update((u_, p_) for p_, i_, fl, u_ in merged if fl & kItemCreated)
                 batch = merged
             elif at < len(stream) and batch[-1][0] == A_OLD:
                 flags.add("splitpair")
@@ -984,9 +1059,9 @@ def groupings(tree, ops):
 def expand_job(L, S, job):
     """job = (layer, rec, tree, ops, groups, verbose): run every cut / coalescing variant; returns list of
     (scenario dict, lines, detail, flags)."""
-    layer, rec, tree, ops, groups, verbose = job
+    layer, rec, tree, ops, groups, verbose = job[:6]
     base = {"layer": layer, "rec": rec, "tree": tree, "ops": [list(o) for o in ops], "groups": list(groups),
-            "verbose": verbose}
+            "verbose": verbose, "reuse": bool(job[6]) if len(job) > 6 else False}
     streams = run_scenario(L, S, base, probe=True)
     per_group = []
     for stream in streams:
@@ -1119,7 +1194,8 @@ def random_job(L, S, seed):
                         return not predict({"layer": layer, "rec": rec, "tree": {}, "ops": o, "groups": g}, ())
                     ops, groups = _random_history(rng, names, 3, n, accept)
                 base = {"layer": layer, "rec": rec, "tree": {}, "ops": [list(o) for o in ops], "groups": groups,
-                        "verbose": rng.random() < 0.5, "seed": seed, "family": fam}
+                        "verbose": rng.random() < 0.5, "seed": seed, "family": fam,
+                        "reuse": layer == "fse" and rng.random() < 0.5}
                 streams = run_scenario(L, S, base, probe=True)
                 cuts, coal = [], []
                 for stream in streams:
@@ -1133,7 +1209,7 @@ def random_job(L, S, seed):
                                 if layer == "win" and prev[0] == A_OLD:
                                     return True
                                 if layer == "fse" and prev[2] & kItemRenamed and nxt[2] & kItemRenamed and \
-                                        prev[1] == nxt[1] and prev[0] != nxt[0]:
+                                        prev[3] == nxt[3] and prev[0] != nxt[0]:
                                     return True
                             return False
                         fam_cuts = [cc for cc in fam_cuts if not splits(cc)]
@@ -1176,8 +1252,9 @@ FINDINGS = {
            "the two ItemRenamed events of one rename arrive in different callback batches: deleted + created instead of "
            "one moved event"),
     "F4": ("fse-renamed-flag-ambiguity-back-to-back", {"R"},
-           "one item is renamed / moved more than once before the batch is translated: the emitter pairs an ItemRenamed "
-           "event with the NEXT ItemRenamed event of the same inode, whatever it means"),
+           "one item is renamed / moved more than once before the batch is translated (or a removed item's inode number is "
+           "re-used by an entry moved in before the batch is translated): the emitter pairs an ItemRenamed event with the "
+           "NEXT ItemRenamed event of the same inode, whatever it means"),
 }
 
 
@@ -1253,6 +1330,19 @@ def predict(sc, flags):
                         del ident[p]
         if layer == "fse" and any(n >= 2 for n in ren_count.values()):
             out.add("F4")
+        if layer == "fse" and gn > 1 and sc.get("reuse"):
+            # the same pairing-by-inode, across two ITEMS: an entry with an untranslated ItemRenamed record is removed and
+            # an entry moved in later in the group re-uses its inode number
+            renamed, freed_renamed = set(), False
+            for op in grp:
+                if op[0] == "movein":
+                    if freed_renamed:
+                        out.add("F4")
+                    renamed.add(op[2])
+                elif op[0] == "rename":
+                    renamed = {op[2] + p[len(op[1]):] if p[: len(op[1])] == op[1] else p for p in renamed} | {op[2]}
+                elif op[0] == "delete" and any(p[: len(op[1])] == op[1] for p in renamed):
+                    freed_renamed = True
         t = end
     return out
 
@@ -1398,6 +1488,10 @@ DESIGN_RUNS = {
     "FSEventsXlat": ("FSEventsXlat", "FSEventsXlat_quick.cfg", "FSEventsXlat_thorough.cfg",
                      ["T_CreatedRemoved", "T_Plain", "T_RenamedPair", "T_RenamedIn", "T_RenamedOut", "T_RootChanged"]),
     "Codec": ("Codec", "Codec_quick.cfg", "Codec_thorough.cfg", ["D_WinRecord", "D_WinEnd", "D_InoRecord", "D_InoEnd"]),
+    # the FSEvents model with inode RE-USE and sticky ItemCreated flags as environment choices (<= 3 operations;
+    # quick: recursive, operations one at a time, no root removal)
+    "FSEventsXlat+reuse": ("FSEventsXlat", "FSEventsXlat_reuse_quick.cfg", "FSEventsXlat_reuse.cfg",
+                           ["T_CreatedRemoved", "T_Plain", "T_RenamedPair", "T_RenamedIn", "T_RenamedOut"]),
 }
 FIXED = {"W1": "ad9135d"}      # repaired in /repo: the neg config stays as a non-vacuity check of the model's switch
 NEG_RUNS = {  # finding -> (module, cfg, invariant TLC must find violated)
@@ -1407,18 +1501,72 @@ NEG_RUNS = {  # finding -> (module, cfg, invariant TLC must find violated)
     "F2": ("FSEventsXlat", "FSEventsXlat_neg_F2.cfg", "FSEvents_NonRecursiveNothingBelowChildren"),
     "F3": ("FSEventsXlat", "FSEventsXlat_neg_F3.cfg", "Xlat_RenameIsOneMovedEvent"),
     "F4": ("FSEventsXlat", "FSEventsXlat_neg_F4.cfg", "Xlat_ReplicaMatches"),
+    "view": ("FSEventsXlat", "FSEventsXlat_neg_view.cfg", "Xlat_ReplicaMatches"),
 }
+FIXED["view"] = "nobody - a seeded mutant (_fs_view.add/discard pair dropped from the created+removed branch): sensitivity"
+
+def _frees_then_creates(tree, ops):
+    """Does a later operation create an entry after an earlier one removed one (so that an inode number can be re-used)?"""
+    freed = False
+    for op in ops:
+        if op[0] in ("mkfile", "mkdir", "movein") and freed:
+            return True
+        if op[0] == "delete":
+            freed = True
+    return False
+
+
+def reuse_histories():
+    """Item life cycles of 3-4 operations that end with an inode number being re-used, beyond the <= 2-operation
+    histories of the quick tier: [create x] [write x] delete x, create y - every choice of x (a new entry or one of the
+    start tree) and y.  With the verbose native variant (ItemCreated repeated on later records of an announced item) the
+    delete arrives as the coalesced ItemCreated|[ItemModified|]ItemRemoved record that touches _fs_view."""
+    out = []
+    for ti, t0 in enumerate(START_TREES):
+        firsts = [[]] + [[op] for op in enabled_ops(t0) if op[0] in ("mkfile", "mkdir") or (op[0] == "movein")]
+        for first in firsts:
+            t1 = apply_model(t0, first[0]) if first else t0
+            x = (first[0][1] if first[0][0] != "movein" else first[0][2]) if first else None
+            victims = [x] if first else [p for p in t1]
+            for v in victims:
+                mids = [[]] + ([[("write", v)]] if t1.get(v) == "f" else [])
+                for mid in mids:
+                    t2 = apply_model(t1, ("delete", v))
+                    for last in enabled_ops(t2):
+                        if last[0] in ("mkfile", "mkdir") or (last[0] == "movein" and last[1] != "t"):
+                            out.append((ti, tuple(first + mid + [("delete", v), last])))
+    return out
+
 
 def scenario_jobs(thorough):
     jobs = []
     maxops = 3 if thorough else 2
+    seen = set()
     for ti, ops in histories(maxops):
+        seen.add((ti, ops))
         for g in groupings(START_TREES[ti], ops):
             for layer in ("win", "fse"):
                 for rec in (True, False):
                     jobs.append((layer, rec, ti, ops, g, False))
-                    if len(ops) <= (2 if thorough else 1) or (not thorough and all(x == 1 for x in g)):
+                    verbose = len(ops) <= (2 if thorough else 1) or (not thorough and all(x == 1 for x in g))
+                    if verbose:
                         jobs.append((layer, rec, ti, ops, g, True))       # verbose native streams
+                    if thorough and layer == "fse" and _frees_then_creates(START_TREES[ti], ops):
+                        jobs.append((layer, rec, ti, ops, g, False, True))      # the freed inode number is re-used
+                        if verbose:
+                            jobs.append((layer, rec, ti, ops, g, True, True))
+    n_reuse = 0
+    for ti, ops in reuse_histories():
+        if (ti, ops) in seen and thorough and len(ops) <= 2:
+            continue
+        n_reuse += 1
+        n = len(ops)
+        for g in groupings(START_TREES[ti], ops):
+            if not thorough and g not in ((1,) * n, (n,), (1, n - 1)):
+                continue                  # quick: one at a time / back to back / first delivered, rest back to back
+            for rec in (True, False):
+                for verbose in (False, True):
+                    jobs.append(("fse", rec, ti, ops, g, verbose, True))
     return jobs, maxops
 
 
@@ -1443,11 +1591,11 @@ def run(c: checklib.Check):
 
     def tlc_job(item):
         name, (mod, cfg) = item
-        big = c.thorough and name == "FSEventsXlat"
+        big = c.thorough and name.startswith("FSEventsXlat")
         return name, cfg, tlc.run_tlc(mod, cfg, workers=max(w, c.jobs // 2) if big else w,
                                       coverage=not name.startswith("neg:"), timeout=1500, heap="8g")
 
-    order = ["FSEventsXlat", "WinXlat", "Codec"]                      # the largest model first
+    order = ["FSEventsXlat", "FSEventsXlat+reuse", "WinXlat", "Codec"]      # the largest models first
     items = [(n, (DESIGN_RUNS[n][0], DESIGN_RUNS[n][tier])) for n in order] + \
             [("neg:" + f, (v[0], v[1])) for f, v in NEG_RUNS.items()]
     pool_t = ThreadPoolExecutor(max_workers=4)
@@ -1563,7 +1711,7 @@ def run(c: checklib.Check):
             if want not in r.violated:
                 c.machinery_failure(f"{cfg}: the model does not reproduce finding {fid} (expected {want} violated, got "
                                     f"{r.violated} {r.errors[:2]})")
-            how = (f"fixed in /repo by {FIXED[fid]}: the switch models the old code" if fid in FIXED else
+            how = (f"fixed in /repo by {FIXED[fid]}: the switch models the other code" if fid in FIXED else
                    "also observed on the real emitter" if fid in observed else
                    "NOT observed on the real emitter: model drift")
             c.note(f"TLC {cfg}: {want} violated as expected (finding {fid}, {how}), {r.distinct} states, {r.wall:.1f}s")
